@@ -338,6 +338,17 @@ def run(ctx, replay=None):
             break
     # the same address and length hashed twice in one function with the bytes changed in between (an optimising caller must not be
     # allowed to reuse the first value), and two threads hashing two files at the same time
+    # inputs whose true hash value is 0 (found by search; each is checked against the reference before use): no value is "reserved"
+    zero = [('mm32', bytes.fromhex('7a9b47c2')), ('fnv32', bytes.fromhex('01476c10f3')), ('fnv64', bytes.fromhex('9206774ce02f892ad2'))]
+    zops = [(o, m) for o, m in zero if int(py_ref(o, m), 16) == 0]
+    zl, _ = run_chunks(ctx, [exe], ['%s %s' % (o, hexs(m)) for o, m in zops])
+    for (o, m), got in zip(zops, zl):
+        ctx.cov['evaluations'] += 1
+        ctx.count('hash-value-zero')
+        if got != py_ref(o, m):
+            ctx.report('impl-vs-spec', {'op': o, 'observed': 'differs-from-published', 'input': 'true-hash-is-zero'},
+                       '%s: result is not the published algorithm applied to exactly the given bytes (an input whose hash is 0)' % o,
+                       {'op': '%s %s' % (o, hexs(m)), 'expected': py_ref(o, m), 'actual': got})
     tw_ops, tw_ref = [], []
     for i in range(24):
         ln = ctx.rng.choice([1, 3, 4, 8, 15, 16, 30])
